@@ -94,6 +94,12 @@ func die(code int, f string, a ...any) {
 func main() {
 	if v := os.Getenv("VERIF_DIR"); v != "" {
 		verifDir = v
+	} else if exe, err := os.Executable(); err == nil {
+		// <verif>/bin/verif: work from the tree this binary was built in (a
+		// background run from a snapshot must not read or write /verif itself)
+		if d := filepath.Dir(filepath.Dir(exe)); fileExists(filepath.Join(d, "MANIFEST.json")) {
+			verifDir = d
+		}
 	}
 	if v := os.Getenv("VERIF_REPO"); v != "" {
 		repoDir = v
@@ -132,6 +138,11 @@ func main() {
 	default:
 		die(2, "unknown command %s", os.Args[1])
 	}
+}
+
+func fileExists(p string) bool {
+	_, err := os.Stat(p)
+	return err == nil
 }
 
 func envOr(k, d string) string {
